@@ -222,6 +222,8 @@ static void check_routes(impl::Lexicon& lex, Rng& rng, std::uint64_t inst)
       for (auto w : { u8"default", u8"true", u8"false", u8"nullptr", u8"delete", u8"this", u8"C", u8"C++", u8"int" }) {
          auto& id = lex.get_identifier(w);
          for (auto t : tys) { auto& sy = lex.get_symbol(id, *t); tcount("look_alike_symbols_planted");
+            // ... each look-alike also asked for its decltype, its as-type and an id-expression naming it, before the constants are
+            { auto& dt = lex.get_decltype(sy); if (&sy != &L.nullptr_value() && &dt == &L.nullptr_value().type()) tviol("route:expression->decltype:look-alike-yields-constant-type", "the decltype of an ordinary symbol is the type of the nullptr constant"); (void)lex.get_as_type(sy); (void)lex.get_decltype(*lex.make_id_expr(id)); tcount("look_alike_symbols_asked_for_their_decltype"); }
             const bool is_const = &sy == &L.default_value() || &sy == &L.true_value() || &sy == &L.false_value() || &sy == &L.nullptr_value() || &sy == &L.delete_value();
             if (is_const && !(&sy.name() == &id && &sy.type() == t)) tviol("route:symbol-yields-constant-of-other-type", "get_symbol(name, type) returned a symbolic constant whose type is not the one asked for"); }
          lex.make_literal(L.int_type(), w); lex.get_label(id);
@@ -387,7 +389,7 @@ static void body(Ctx& C)
    C.sample(J().s("kind", "route").s("route", "get_as_type(get_identifier(\"long long\"))").s("expect", "long_long_type()").str());
    C.sample(J().s("kind", "near-miss").s("route", "get_as_type(get_identifier(\"long long \"))").s("expect", "not a constant, unified").str());
    C.need("builtin_accessors_checked"); C.need("builtin_pairs_checked"); C.need("routes_checked"); C.need("near_miss_routes_checked");
-   C.need("lexicon_instances"); C.need("lexicon_instances_threaded"); C.need("same_length_hash_twins_of_constant_spellings_planted"); C.need("constants_seen_during_static_initialisation"); C.need("routes_through_a_string_object_recreated_in_place");
+   C.need("lexicon_instances"); C.need("look_alike_symbols_asked_for_their_decltype"); C.need("lexicon_instances_threaded"); C.need("same_length_hash_twins_of_constant_spellings_planted"); C.need("constants_seen_during_static_initialisation"); C.need("routes_through_a_string_object_recreated_in_place");
    C.exhaustive(true);
 }
 
